@@ -49,6 +49,10 @@ def gen_direct(rng, i, tier):
     rb = rng.choice([8, 16, 64, 1000, 4096, 4096, 65536, 200000] + ([1, 3, 7] if rng.random() < 0.15 else []))
     bias = rng.choice([0.0, 0.1, 0.5, 0.9, 1.0])
     lines = ["case %d" % i, "cfg %d %d %d %d %d %d %d %s" % (ch, rate, nom, mx, av, mn, rb, bias)]
+    if rng.random() < 0.3:
+        # followed by a request that must be refused (tuning value out of range) although its limits are consistent and different
+        k2 = rng.choice([32, 64, 96, 128, 256, 320, 500])
+        lines[1] += " X%d:%d:%d:%d" % (rng.choice([0, k2, 2 * k2]), rng.choice([0, k2]), rng.choice([0, k2 // 2, k2]), rng.randrange(4))
     nb = rng.choice([20, 60, 150]) if tier == "quick" else rng.choice([50, 300, 1500])
     # per-block budget in bytes, to scale the blob sizes around the interesting region
     scale = max(4, nom * 64 // rate // 8)
@@ -118,6 +122,10 @@ def run(chk):
             dist["rejected"] = dist.get("rejected", 0) + 1
             continue
         c = kv(cfg[0])
+        c2 = [l for l in r["c"] if l.startswith("cfg2 ")]
+        if c2 and kv(c2[0]).get("refused") != "OV_EINVAL":
+            ofail.append((r, "setup: a rate-management request with a tuning value out of range answered %s" % kv(c2[0]).get("refused")))
+            continue
         # what the configuration asked for (the cfg op: ch rate nominal max_kbps avg_kbps min_kbps reservoir_bits bias)
         cop = [o for o in r["ops"] if o.startswith("cfg ")][0].split(" ")
         want_max, want_avg, want_min, want_rb = int(cop[4]) * 1000, int(cop[5]) * 1000, int(cop[6]) * 1000, int(cop[7])
